@@ -53,6 +53,24 @@ def build_events(allc, out, rep, mo):
             R2 = gm.flat(graphlib.graph_of_tree(s2["tree"], k))
             events.append({"ev": "cleanup", "G": G, "R": R, "R2": R2})
             idx.append(i)
+            # element by element: an object or typedef whose references all stay is not altered in any other respect either
+            import parsercases as pc
+
+            def refs_of(g):
+                d = {}
+                for t in g["refs"]:
+                    d.setdefault((t[1], t[2]), []).append([t[0], t[3]])
+                return d
+            r0, r1 = refs_of(G), refs_of(R)
+            m0, m1 = gm.module_of(s0["tree"], k), gm.module_of(s1["tree"], k)
+            for kind, field in gm.FIELD_OF_KIND.items():
+                if kind in gm.HELPER_KINDS:
+                    continue
+                after = {gm._s(e.get("name")): e for e in m1.get(field) or []}
+                for e0 in m0.get(field) or []:
+                    n = gm._s(e0.get("name"))
+                    if n is not None and n in after and r0.get((kind, n)) == r1.get((kind, n)) and pc.strip_layout(e0) != pc.strip_layout(after[n]):
+                        rep.violation(f"cleanup:ObjectsUntouched:content:{kind}", f"cleanup() altered {kind} {n} although all its references stay", {"kind": "cleanup", "case": c, "a": mo[i]["a"]})
     return events, idx
 
 
